@@ -62,6 +62,9 @@ fn set_bank(b: &mut Bank, k: &str, v: &Value) {
         "config.oracle_max_confidence" => b.config.oracle_max_confidence = i128v(v) as u32,
         "config.operational_state" => b.config.operational_state = unsafe { std::mem::transmute::<u8, _>(i128v(v) as u8) },
         "config.risk_tier" => b.config.risk_tier = unsafe { std::mem::transmute::<u8, _>(i128v(v) as u8) },
+        "emode.entries" => { for (i, p) in v.as_array().unwrap().iter().enumerate() { let a = p.as_array().unwrap();
+            b.emode.emode_config.entries[i].collateral_bank_emode_tag = i128v(&a[0]) as u16;
+            b.emode.emode_config.entries[i].asset_weight_init = wi(&a[1]); b.emode.emode_config.entries[i].asset_weight_maint = wi(&a[2]); } },
         "irc.optimal_utilization_rate" => b.config.interest_rate_config.optimal_utilization_rate = wi(v),
         "irc.plateau_interest_rate" => b.config.interest_rate_config.plateau_interest_rate = wi(v),
         "irc.max_interest_rate" => b.config.interest_rate_config.max_interest_rate = wi(v),
@@ -289,6 +292,8 @@ fn entry_call(req: &Value) -> Value {
                          if let Some(m) = f.and_then(|x| x.as_object()) { for (k, v) in m { let kk = kref(v); match k.as_str() {
                              "admin" => g.admin = kk, "delegate_emissions_admin" => g.delegate_emissions_admin = kk, "delegate_curve_admin" => g.delegate_curve_admin = kk,
                              "delegate_limit_admin" => g.delegate_limit_admin = kk, "emode_admin" => g.emode_admin = kk, "risk_admin" => g.risk_admin = kk, _ => panic!("group field") } } }
+                         g.emode_max_init_leverage = marginfi_type_crate::types::basis_to_u32(I80F48::from_num(15));
+                         g.emode_max_maint_leverage = marginfi_type_crate::types::basis_to_u32(I80F48::from_num(20));
                          zc_bytes(&g) }
             "mint" => { let mut d = vec![0u8; 82]; d[44] = 6; d[45] = 1; d }
             "token_account" => { let mut d = vec![0u8; 165]; if let Some(x) = f.and_then(|x| x.get("mint")) { d[..32].copy_from_slice(&kref(x).to_bytes()); } d[108] = 1; d }
@@ -314,7 +319,11 @@ fn entry_call(req: &Value) -> Value {
     for (i, a) in specs.iter().enumerate() {
         if a.get("kind").and_then(|v| v.as_str()) == Some("bank") {
             let b: &Bank = bytemuck::from_bytes(&datas[i][8..]);
-            dumps.push(json!({"index": i, "bank": dump_bank(b)}));
+            use marginfi::state::emode::EmodeSettingsImpl;
+            let caps = (marginfi_type_crate::types::basis_to_u32(I80F48::from_num(15)), marginfi_type_crate::types::basis_to_u32(I80F48::from_num(20)));
+            let ev = std::panic::catch_unwind(|| b.emode.validate_entries_with_liability_weights(&b.config, caps.0, caps.1).is_ok()).unwrap_or(false);
+            let n_entries = b.emode.emode_config.entries.iter().filter(|e| e.collateral_bank_emode_tag != 0).count();
+            dumps.push(json!({"index": i, "bank": dump_bank(b), "emode_valid_for_this_bank": ev, "emode_entries": n_entries}));
         }
     }
     out.insert("accounts".into(), Value::Array(dumps));
